@@ -913,3 +913,9 @@ func constantInt64(k constant.Value) (int64, bool) {
 	}
 	return constant.Int64Val(k)
 }
+
+// namedOf returns the named type of t (through aliases).
+func namedOf(t types.Type) (*types.Named, bool) {
+	n, ok := types.Unalias(t).(*types.Named)
+	return n, ok
+}
